@@ -69,3 +69,14 @@ CONTRACTS['FileHeaderItem.__init__'] = dict(
     ensures=[('header-id-fits-its-65-column-field', 'len(self.header_id) <= 65'), ('sequence-number-fits-10-digits', '0 < self.sequence_number and self.sequence_number <= 9999999999'),
              ('only-compatible-id-in-the-mode', f'implies({FLAG}, hc_name_ok(self.header_id))'),
              ('registered-in-its-header-set', 'parent._eflr_item_list == old(parent._eflr_item_list) + [self]')])
+
+# ---------------------------------------------------------------------------------------------- C17 scenarios (client-level harnesses)
+# The same three facts as the contracts on high_compatibility_mode / its decorator above, stated on small client programs
+# (/verif/scenarios/s_c17.py) so that they do not depend on HOW the library implements the context manager.
+for _sc, _n in (('scenario_mode_with_block', 0), ('scenario_mode_nested_with_blocks', 2), ('scenario_mode_nested_decorated_calls', 2)):
+    _p = 'body_raises' if _n == 0 else 'inner_raises'
+    CONTRACTS[_sc] = dict(
+        props=['C17', 'C14'], globals=GC, must_return=True, params={_p: 'bool'}, returns='tuple[bool,opq:any,bool]' if _n == 0 else None,
+        ensures=[('previous-mode-restored-normally-or-by-exception-nested-or-not', 'result[2] == result[0]')] +
+                ([('mode-on-inside', 'result[1] == True')] if _n == 0 else
+                 [('mode-on-inside-both-levels', 'len(result[1]) == 2 and result[1][0] == True and result[1][1] == True')]))
